@@ -581,6 +581,11 @@ def margins_definitions(rep, F, E, tag, rid):
         R.check(got is not None and len(parts) == 2 and parts[1] in ('max(zero(), %s)' % parts[0], 'max(%s, zero())' % parts[0]), 'soc' + tag,
                 'SecondOrderCone::margins returns %s: expected (z0 - |z[1..]|, max(0, .)) - the minimum margin decides how far the start point is '
                 'shifted into the cone' % ret[:160], f.loc())
+        # ... and the norm is the Euclidean one (the linear-form domain writes every vector norm as one atom): with the infinity norm the margin
+        # is over-estimated by |tail|_2 - |tail|_inf and the shifted point can stay outside the cone
+        other = sorted(set(c.callee.name for c in f.calls if c.callee.name in ('norm_inf', 'norm_one', 'norm_1', 'norm_inf_scaled', 'norm_scaled', 'maximum', 'sum', 'sumsq_scaled')))
+        R.check(not other, 'soc-euclidean' + tag, 'SecondOrderCone::margins measures the tail with %s: the distance to the boundary of the second-order cone is '
+                'z0 minus the Euclidean norm of the tail' % other, f.loc())
         g = F.one(name='margins', adt='NonnegativeCone', trait='Cone')
         r = canon(g.sym_local(0))
         cl = [canon(c.sym_local(0)) for c in F.closures_of.get(g.key, [])]
@@ -588,5 +593,79 @@ def margins_definitions(rep, F, E, tag, rid):
                 'nn' + tag, 'NonnegativeCone::margins returns %s with fold %s: expected (min z, sum max(z_i, 0))' % (r, cl), g.loc())
         h = F.one(name='margins', adt='ZeroCone', trait='Cone')
         R.check(canon(h.sym_local(0)) == 'tuple(max_value(), zero())', 'zero' + tag, 'ZeroCone::margins returns %s, expected (max_value, 0)' % canon(h.sym_local(0)), h.loc())
+
+    R.guard(body)
+
+
+def barrier_trial_points(rep, F, tag, rid):
+    """compute_barrier(z, s, dz, ds, alpha) evaluates the barrier at the trial point (z + alpha dz, s + alpha ds).  A component that pairs a point with
+    the other direction (s[2] + alpha dz[2]) evaluates the barrier somewhere else: the centrality line search accepts or rejects the wrong steps, and the
+    exponential cone's primal barrier is handed arguments outside the domain of its Wright-omega evaluation, which panics."""
+    from .c14 import _txt_eval, _NoDerivative
+    from engine.linform import RatF, P_atom, P_const
+    R = rep.rule(rid, 'compute_barrier evaluates the barrier at (z + alpha dz, s + alpha ds): every component pairs a point with its own direction')
+
+    def body():
+        A = lambda n_: RatF(P_atom(n_))
+        vecs = {'arg%d' % k: [A('v%d_%d' % (k, i)) for i in range(3)] for k in (2, 3, 4, 5)}
+        scal = {'arg6': A('alpha')}
+        PAIR = {'dual': ('arg2', 'arg4'), 'primal': ('arg3', 'arg5')}
+
+        def comp_ok(txt, which, i):
+            b, d = PAIR[which]
+            try:
+                got = _txt_eval(txt, scal, vecs)
+            except _NoDerivative:
+                return False
+            want = vecs[b][i] + A('alpha') * vecs[d][i]
+            return (got + want * RatF(P_const(-1))).is_zero()
+        n = 0
+        for K in ('ExponentialCone', 'PowerCone'):
+            f = F.one(name='compute_barrier', adt=K)
+            for val, ret, ev, tr in Walker(f, cut_loops=True, local_stores=True).leaves():
+                if ret[0] == 'diverge':
+                    continue
+                seen = set()
+                for e in ev:
+                    if e[0] == 'call' and e[1] in ('barrier_dual', 'barrier_primal'):
+                        which = e[1][len('barrier_'):]
+                        seen.add(which)
+                        a = split_args(str(e[2]))
+                        comps = split_args(a[1]) if a[1].startswith('array(') else []
+                        ok = len(comps) == 3 and all(comp_ok(c_, which, i) for i, c_ in enumerate(comps))
+                        n += 1
+                        R.check(ok, 'trial|%s|%s%s' % (K, which, tag), '%s::compute_barrier hands barrier_%s the point %s, expected %s[i] + alpha * %s[i] in every component' % (
+                            K, which, [c_[:50] for c_ in comps] or a[1][:80], PAIR[which][0], PAIR[which][1]), f.loc())
+                R.check(seen == {'dual', 'primal'}, 'both|%s%s' % (K, tag), '%s::compute_barrier evaluates %s' % (K, sorted(seen)), f.loc())
+        f = F.one(name='compute_barrier', adt='GenPowerCone')
+        for val, ret, ev, tr in Walker(f, cut_loops=True, local_stores=True).leaves():
+            if ret[0] == 'diverge':
+                continue
+            last = None
+            seen = set()
+            for e in ev:
+                if e[0] != 'call':
+                    continue
+                if e[1] == 'waxpby':
+                    last = split_args(str(e[2]))
+                elif e[1] in ('barrier_dual', 'barrier_primal'):
+                    which = e[1][len('barrier_'):]
+                    seen.add(which)
+                    b, d = PAIR[which]
+                    n += 1
+                    ok = last is not None and last[1:] in ([ 'one()', b, 'arg6', d], ['arg6', d, 'one()', b]) and split_args(str(e[2]))[1] == last[0]
+                    R.check(ok, 'trial|GenPowerCone|%s%s' % (which, tag), 'GenPowerCone::compute_barrier evaluates barrier_%s after waxpby(%s), expected work = %s + alpha * %s' % (
+                        which, ', '.join(x[:20] for x in (last or [])), b, d), f.loc())
+            R.check(seen == {'dual', 'primal'}, 'both|GenPowerCone' + tag, 'GenPowerCone::compute_barrier evaluates %s' % sorted(seen), f.loc())
+        f = F.one(name='compute_barrier', adt='SecondOrderCone')
+        rs = set()
+        for val, ret, ev, tr in Walker(f, cut_loops=True).leaves():
+            for e in ev:
+                if e[0] == 'call' and 'soc_residual_shifted' in e[1]:
+                    rs.add(tuple(split_args(str(e[2]))))
+        n += len(rs)
+        R.check(rs == {('arg2', 'arg4', 'arg6'), ('arg3', 'arg5', 'arg6')}, 'trial|SecondOrderCone' + tag,
+                'SecondOrderCone::compute_barrier takes the shifted residuals of %s, expected (z, dz, alpha) and (s, ds, alpha)' % sorted(rs), f.loc())
+        R.check(n >= 8, 'count' + tag, 'only %d trial points analysed' % n)
 
     R.guard(body)
